@@ -7,6 +7,7 @@ import (
 	"net/http/httptest"
 	"strings"
 	"sync"
+	"time"
 
 	"github.com/vicanso/elton"
 	"github.com/vicanso/elton/middleware"
@@ -196,6 +197,61 @@ func suiteProxy(r *rng, n int) {
 			stat("req-" + method)
 		}
 	}
+	proxyTimeoutHistory()
+}
+
+// directed history: an upstream that does not answer.  The location's proxy timeout (300 ms) must end the fetch
+// with an error, and a second request for the same URL that was coalesced behind it must be released too.
+func proxyTimeoutHistory() {
+	release := make(chan struct{})
+	hung := httptest.NewServer(http.HandlerFunc(func(w http.ResponseWriter, req *http.Request) {
+		select {
+		case <-release:
+		case <-time.After(4 * time.Second):
+		}
+		w.Header().Set("Cache-Control", "max-age=60")
+		w.WriteHeader(200)
+		io.WriteString(w, "late")
+	}))
+	defer hung.Close()
+	defer close(release)
+	cache.ResetDispatchers(nil)
+	cache.ResetDispatchers([]config.CacheConfig{{Name: "c1", Size: 100, HitForPass: "300s"}})
+	upstream.Reset([]config.UpstreamConfig{{Name: "u1", Servers: []config.UpstreamServerConfig{{Addr: hung.URL}}}})
+	location.Reset([]config.LocationConfig{{Name: "l1", Upstream: "u1", ProxyTimeout: "300ms"}})
+	s := server.NewServer(server.ServerOption{Addr: ":0", Locations: []string{"l1"}, Cache: "c1", CompressMinLength: 1 << 20})
+	e := elton.New()
+	e.Use(middleware.NewDefaultError())
+	e.Use(server.NewResponder())
+	e.Use(server.NewCache(s))
+	e.Use(server.NewProxy(s))
+	e.ALL("/*", func(c *elton.Context) error { return nil })
+	type res struct {
+		code int
+		ms   int64
+	}
+	out := make(chan res, 2)
+	one := func() {
+		t0 := time.Now()
+		w := httptest.NewRecorder()
+		e.ServeHTTP(w, buildRequest("GET", "p.test", "/hang", http.Header{}, nil))
+		out <- res{w.Code, time.Since(t0).Milliseconds()}
+	}
+	go one()
+	time.Sleep(50 * time.Millisecond)
+	go one() // coalesced behind the first
+	var rs []res
+	deadline := time.After(3 * time.Second)
+	for len(rs) < 2 {
+		select {
+		case r := <-out:
+			rs = append(rs, r)
+		case <-deadline:
+			rs = append(rs, res{-1, 3000})
+		}
+	}
+	emit("proxy", "hang", "300", itoa(int64(rs[0].code)), itoa(rs[0].ms), itoa(int64(rs[1].code)), itoa(rs[1].ms))
+	stat("hang-histories")
 }
 
 func headerEqIgnoringEmptyAE(got, orig http.Header) bool {
